@@ -1258,7 +1258,7 @@ func (v *Verifier) execTypeAssert(s *State, t *ssa.TypeAssert) {
 	var val *Value
 	if isIface(t.AssertedType) {
 		// interface-to-interface: succeeds iff dynamic type implements; unknown -> fresh bool, but nil fails
-		okb := Fresh("implements", SBool)
+		okb := implementsTerm(x.L[0], t.AssertedType)
 		ok = And(Neq(x.L[0], Int(0)), okb)
 		if types.Identical(under(t.X.Type()), under(t.AssertedType)) {
 			ok = Neq(x.L[0], Int(0))
@@ -1316,4 +1316,24 @@ func (v *Verifier) regOrNil(s *State, x ssa.Value) (val *Value) {
 		}
 	}()
 	return v.reg(s, x)
+}
+
+
+// implementsTerm: does the dynamic type with this tag implement interface it? Decided statically for constant tags,
+// otherwise an uninterpreted predicate of the tag (values of static type `it` satisfy it by typing).
+func implementsTerm(tag *Term, it types.Type) *Term {
+	iface, ok := under(it).(*types.Interface)
+	if !ok {
+		return False
+	}
+	if tag.isInt() {
+		if ct, ok := typeIDTypes[tag.ival.Int64()]; ok {
+			return Bool(types.Implements(ct, iface))
+		}
+		return False
+	}
+	if iface.NumMethods() == 0 {
+		return True
+	}
+	return App("implements!"+typeName(it), SBool, tag)
 }
